@@ -7,7 +7,7 @@
 From Coq Require Import List ZArith NArith Bool Lia.
 From Pcfg Require Import Str Multiword Detect Segment SegCorr DetectRt DetectRt2 DetectProofsStr DetectProofsDrive DetectProofsMw
      DetectProofsSeg DetectProofsWeb DetectProofsInst DetectGenProofs DetectGenProofsMw DetectGenProofsEmail DetectGenProofsWeb.
-From PcfgGen Require Import Consts_gen Unicode_gen DetectMw_gen DetectEmail_gen DetectWeb_gen.
+From PcfgGen Require Import Consts_gen Unicode_gen Detect_gen DetectMw_gen DetectEmail_gen DetectWeb_gen.
 Import ListNotations.
 Open Scope Z_scope.
 
@@ -169,3 +169,75 @@ Lemma demo_py_email_web :
           [[119; 119; 119; 46; 114; 111; 99; 107; 121; 111; 117; 46; 99; 111; 109; 47; 97; 98; 99]%N],
           [Some [114; 111; 99; 107; 121; 111; 117; 46; 99; 111; 109]%N], [Some [119; 119; 119; 46]%N]).
 Proof. split; vm_compute; reflexivity. Qed.
+
+(* ------------------------------------------------------------------ *)
+(* PCFGPasswordParser.parse over the translated detectors              *)
+(* ------------------------------------------------------------------ *)
+
+(* the model's driver and alpha detector only apply their oracles *)
+Lemma drive_ext {F} (d1 d2 : str -> dres F) reex : (forall s, d1 s = d2 s) ->
+  forall fuel todo, drive d1 reex fuel todo = drive d2 reex fuel todo.
+Proof.
+  intros E. induction fuel as [|f IH]; intros todo; destruct todo as [|[s [l|]] rest]; cbn [drive]; try reflexivity.
+  - now rewrite IH.
+  - rewrite E. destruct (d2 s) as [| |p found]; [reflexivity|now rewrite IH|].
+    destruct reex; [now rewrite IH|]. destruct (p ++ rest); [reflexivity|now rewrite IH].
+Qed.
+
+Lemma detect_alpha_ext isalpha isupper lower_c aligned (f g : str -> option (bool * list str)) :
+  (forall x, f x = g x) -> forall s, detect_alpha isalpha isupper lower_c aligned f s = detect_alpha isalpha isupper lower_c aligned g s.
+Proof. intros E s. unfold detect_alpha. cbv zeta. destruct (first_run _ _) as [[a b]|]; [|reflexivity]. now rewrite E. Qed.
+
+Section ParseExt.
+Variables isalpha isdigit isupper : N -> bool.
+Variable lower_c : N -> str.
+Variable kbs : list board.
+Variable fp_words : list str.
+Variable min_run : Z.
+Variable tlds : list str.
+Variables thr minl maxl : Z.
+
+(* py_parse_eq for ANY implementations of the four parameters of the generated parse that
+   agree with the model's: multiword_detector.parse, and the effect of detect_keyboard_walk /
+   email_detection / website_detection on the section list *)
+Theorem py_parse_eq_ext (m : mwmap) (mwp : str -> option (bool * list str))
+        (kw : str -> option (list section)) (em web : list section -> option (list section)) (pw : str) :
+  (forall x, mwp x = mwparse lower_c thr minl maxl m x) ->
+  kw pw = model_keyboard_walk isalpha isdigit lower_c kbs fp_words min_run pw ->
+  (forall sl, em sl = model_email_detection lower_c tlds sl) ->
+  (forall sl, web sl = model_website_detection isalpha lower_c tlds sl) ->
+  py_parse isalpha isdigit isupper lower_c mwp kw em web pw =
+  parse_view (parse isalpha isdigit isupper lower_c true kbs fp_words min_run tlds year_prefixes context_strings
+                    thr minl maxl m pw).
+Proof.
+  intros Hmw Hkw Hem Hweb.
+  rewrite <- (py_parse_eq isalpha isdigit isupper lower_c kbs fp_words min_run tlds thr minl maxl m pw).
+  unfold py_parse. rewrite Hkw.
+  destruct (model_keyboard_walk isalpha isdigit lower_c kbs fp_words min_run pw) as [sl0|]; cbn [call]; [|reflexivity].
+  rewrite Hem. destruct (model_email_detection lower_c tlds sl0) as [sl1|]; cbn [call]; [|reflexivity].
+  rewrite Hweb. destruct (model_website_detection isalpha lower_c tlds sl1) as [sl2|]; cbn [call]; [|reflexivity].
+  destruct (py_year_detection isdigit sl2) as [[sl3 ys]|]; cbn [call]; [|reflexivity].
+  destruct (py_context_sensitive_detection isdigit sl3) as [[sl4 cs]|]; cbn [call]; [|reflexivity].
+  rewrite !py_alpha_detection_eq. unfold drive_all.
+  rewrite (drive_ext _ _ false (detect_alpha_ext isalpha isupper lower_c true _ _ Hmw)).
+  reflexivity.
+Qed.
+End ParseExt.
+
+(* the pipeline as the source has it: the translated parse over the translated multi-word
+   detector, e-mail and website stages (the keyboard-walk stage: see below) *)
+Definition py_email_stage_c (sl : list section) : option (list section) :=
+  option_map (fun r => fst (fst r)) (py_email_detection c_lower tld_list sl).
+Definition py_website_stage_c (sl : list section) : option (list section) :=
+  option_map (fun r => fst (fst (fst r))) (py_website_detection c_isalpha c_lower tld_list sl).
+
+Lemma py_email_stage_c_is_model sl : py_email_stage_c sl = model_email_detection c_lower tld_list sl.
+Proof.
+  unfold py_email_stage_c, model_email_detection. rewrite py_email_detection_c_is_model.
+  now destruct (drive_all _ _ sl) as [[out fs]|].
+Qed.
+Lemma py_website_stage_c_is_model sl : py_website_stage_c sl = model_website_detection c_isalpha c_lower tld_list sl.
+Proof.
+  unfold py_website_stage_c, model_website_detection. rewrite py_website_detection_c_is_model.
+  now destruct (drive_all _ _ sl) as [[out fs]|].
+Qed.
